@@ -312,7 +312,11 @@ def corrcoef(x, y):
   syy = ((y - yb) * (y - yb)).sum()
   sxy = ((x - xb) * (y - yb)).sum()
   e = eng()
-  e.assume(z3.And((sxx > 0).e, (syy > 0).e))
+  for v in (sxx, syy):
+    if isinstance(v, SNum):
+      e.assume((v > 0).e)
+    elif not v > 0:
+      raise symx.PathAbort('constant series: outside the domain')
   c = pvar('corr', L(sxx), L(syy), L(sxy))
   e._add(z3.And(c >= -1, c <= 1, c * c * L(sxx) * L(syy) == L(sxy) * L(sxy),
                 z3.Or(z3.And(c >= 0, L(sxy) >= 0), z3.And(c <= 0,
